@@ -26,6 +26,10 @@ def msgStr (o : Opts) (m : Msg) : String :=
 
 def sortStrs (l : List String) : List String := l.mergeSort (fun a b => !(b < a))
 
+def pairs : List Nat → List (Nat × Nat)
+  | a :: b :: r => (a, b) :: pairs r
+  | _ => []
+
 def parsePath (ts : List String) : Option Path :=
   match ts with
   | [f, bits, pfx, id, hash, "0"] =>
@@ -37,7 +41,10 @@ def parsePath (ts : List String) : Option Path :=
 
 def step (s : St) (ts : List String) : St × List String :=
   match ts with
-  | "opts" :: e :: rest => ({ s with opts := ⟨b! e, (takeList rest).1⟩ }, [])
+  | "opts" :: e :: rest =>
+    -- opts <ext> <k> f1 m1 … fk mk   (family, negotiated ADD-PATH mode 0..3)
+    let l := (takeNats (2 * nat! (rest.headD "0")) (rest.drop 1)).1
+    ({ s with opts := ⟨b! e, pairs l⟩ }, [])
   | ["reset"] => ({ s with items := [] }, [])
   | ["eor", f] => ({ s with items := Item.eor (nat! f) :: s.items }, [])
   | "path" :: rest =>
